@@ -232,7 +232,7 @@ func parseContractFile(path, pkgPath string) (*ContractFile, error) {
 				lastSp = sp
 				curLem = nil
 			}
-		case "guarded", "held", "goroutines", "public", "nostore", "before", "detached", "frozen":
+		case "guarded", "held", "goroutines", "public", "nostore", "before", "detached", "frozen", "apart":
 			if err := flush(); err != nil {
 				return nil, err
 			}
@@ -261,7 +261,7 @@ func parseContractFile(path, pkgPath string) (*ContractFile, error) {
 				// frozen pkg.Type.field
 				i := strings.LastIndex(fs[0], ".")
 				g.Type, g.Fields = fs[0][:i], []string{fs[0][i+1:]}
-			case word == "before" && len(fs) == 3:
+			case (word == "before" || word == "apart") && len(fs) == 3:
 				// before <func> <calleeA> <calleeB>: every call of B is dominated by a call of A
 				g.Func, g.Fields = fs[0], fs[1:]
 			case word == "public" && len(fs) == 2:
